@@ -192,6 +192,28 @@ def oracle_misc(ck, rng):
         ms = [np.asarray(ZNCCAlignment(tmpl, tilt=(-50, 40)).get_missing_wedge_mask(q)) > 0,
               np.asarray(ZNCCAlignment(tmpl, tilt=single_axis((-50, 40))).get_missing_wedge_mask(q)) > 0,
               np.asarray(ZNCCAlignment(tmpl, tilt_range=(-50, 40)).get_missing_wedge_mask(q)) > 0]
+        # the same through the with_params factory (tuple, model object, legacy keyword)
+        fac = [("with_params(tilt=tuple)", ZNCCAlignment.with_params(tilt=(-50, 40))(tmpl)),
+               ("with_params(tilt=model)", ZNCCAlignment.with_params(tilt=single_axis((-50, 40)))(tmpl)),
+               ("with_params(tilt_range=legacy)", ZNCCAlignment.with_params(tilt_range=(-50, 40))(tmpl))]
+    for nm_, mdl in fac:
+        ck.oracle_count("nowedge_union_entry_points", 1, 1)
+        if not np.array_equal(np.asarray(mdl.get_missing_wedge_mask(q)) > 0, ms[0]):
+            ck.violation(what=f"tilt range given through {nm_} yields a different mask than the constructor's tuple form", inp={"tilt": [-50, 40], "entry": nm_},
+                         key={"site": "entry-points", "which": nm_}, oracle="nowedge_union_entry_points")
+    # several models with different tilt specifications, same box, same orientation, asked in turn: each keeps its own mask
+    from acryo.alignment import NCCAlignment
+    specs = [("y(-50,40)", single_axis((-50, 40))), ("y(-20,20)", single_axis((-20, 20))), ("x(-50,40)", single_axis((-50, 40), "x")),
+             ("dual", dual_axis((-50, 40), (-30, 60))), ("none", no_wedge())]
+    mods = [(nm_, spec, (ZNCCAlignment if j % 2 else NCCAlignment)(tmpl, tilt=spec)) for j, (nm_, spec) in enumerate(specs)]
+    for rnd in range(2):
+        for nm_, spec, mdl in (mods if rnd == 0 else mods[::-1]):
+            ck.oracle_count("models_keep_their_own_wedge", 1, 1)
+            got = np.asarray(mdl.get_missing_wedge_mask(q)) > 0
+            want = np.asarray(spec.create_mask(rot, shape)) > 0
+            if not np.array_equal(got, want):
+                ck.violation(what=f"model with tilt {nm_}, asked after other models for the same orientation and box, returns a mask differing in {int((got != want).sum())} bins "
+                                  f"from its own tilt model", inp={"tilt": nm_, "round": rnd}, key={"site": "model-wedge-state"}, oracle="models_keep_their_own_wedge")
     if not (np.array_equal(ms[0], ms[1]) and np.array_equal(ms[0], ms[2])):
         which = "legacy keyword" if np.array_equal(ms[0], ms[1]) else "model object"
         ck.violation(what=f"tilt range given as {which} yields a different mask than the tuple form", inp={"tilt": [-50, 40]},
